@@ -219,6 +219,19 @@ def tsOf (fetch : Id → Option Event) (id : Id) : Int :=
   | some e => e.originServerTs
   | none => 0
 
+/-- Step 1, the events to order: "the power events in the full conflicted set" and, "for each such
+power event `P`, […] the events in the auth chain of `P` which also belong to the full conflicted
+set". -/
+def powerEventsWithChains (p : Params) (fetch : Id → Option Event) (F : List Id) : List Id :=
+  authClosure fetch F F.length (F.filter (fun id => (fetch id).any (isPowerEvent p)))
+
+/-- Step 1, the ordering: "sort `X` into a list using the reverse topological power ordering" (fails
+when the power level of some sender cannot be read). -/
+def reversePowerOrdering (p : Params) (fetch : Id → Option Event) (X : List Id) : Except Fail (List Id) :=
+  match senderPowers p fetch X with
+  | .error x => .error x
+  | .ok pls => .ok (lexTopo (powerGraph fetch X) (fun id => ⟨((AL.get pls id).getD 0), tsOf fetch id, id⟩))
+
 /-- Steps 1–5 of the algorithm. `dev = false` is the specification. `dev = true` is the
 specification with exactly one documented deviation (finding F4 of the implementation): an event
 without mainline ancestor takes the position of the oldest mainline event instead of sorting before
@@ -231,12 +244,10 @@ def resolveWith (dev : Bool) (p : Params) (store : List Event) (sets : List Stat
   let F := fullConflictedSet fetch sets chains
   -- 1. power events of the full conflicted set, enlarged by their auth chains inside it, in
   --    reverse topological power ordering
-  let X := authClosure fetch F F.length (F.filter (fun id => (fetch id).any (isPowerEvent p)))
-  match senderPowers p fetch X with
+  let X := powerEventsWithChains p fetch F
+  match reversePowerOrdering p fetch X with
   | .error x => .error x
-  | .ok pls =>
-    let key : Id → TB := fun id => ⟨((AL.get pls id).getD 0), tsOf fetch id, id⟩
-    let sortedX := lexTopo (powerGraph fetch X) key
+  | .ok sortedX =>
     -- 2. iterative auth checks from the unconflicted state map
     match iterativeAuthChecks p fetch sortedX U with
     | .error x => .error x
